@@ -105,6 +105,10 @@ def cases(tier, salts):
                     if len(sel) <= 2 and st in ("near", "far", "hair_tol"):
                         for tol0, mi0 in ((0.0, 100), (0.0, 5), (1e-10, 1)):
                             out.append({"n": n, "sel": list(sel), "start": st, "tol": tol0, "max_iter": mi0, "salt": salt})
+                    # projectors that overwrite their argument and return it (wave j: the routine may hand a projector only a
+                    # private temporary that it never reads again)
+                    if len(sel) <= 2 and st in ("near", "far") and (salt == 0 or tier == "thorough"):
+                        out.append({"n": n, "sel": list(sel), "start": st, "tol": 1e-10, "max_iter": 100, "salt": salt, "style": "inplace"})
                     for tol in TOLS:
                         for mi in ([100] if len(sel) > 2 and tier == "quick" else [100, 5, 1000]):
                             if mi != 100 and tol not in (1e-10, 1e-6):
@@ -221,7 +225,7 @@ def check_case(case):
         if s.dist(common_pt) > 0:
             raise common.HarnessError("bank set %s does not contain the common point" % (s.spec,))
     x0c = x0.copy()
-    out = dykstra([s.proj for s in sets], x0, max_iter=case["max_iter"], tol=case["tol"])
+    out = dykstra([(s.proj_inplace if case.get("style") == "inplace" else s.proj) for s in sets], x0, max_iter=case["max_iter"], tol=case["tol"])
     v = []
     tags = []
     if not np.array_equal(x0, x0c):
